@@ -42,3 +42,35 @@ Print Assumptions C11_dead.
 Print Assumptions C11_dead_ignored.
 Print Assumptions C11_live.
 Print Assumptions C11_within_input.
+
+(* ---- streams: a non-eofish error of the current item is reported identically (code, index, byte_offset) whatever follows the input ---- *)
+From SJ Require Import Model.Stream Spec.Syntax.
+From SJ Require Proofs.StreamEof.
+Theorem C11_stream_stable : forall rk cf ss w p c i t,
+  (is_io (mkEnv rk TEof cf) && ss_failed ss = false) ->
+  rest (ss_st ss) = w ++ p -> ws_ok w = true ->
+  (match p with b :: _ => ws_byte b = false | [] => False end) ->
+  value_item (mkEnv rk TEof cf) (mkSt p (off (ss_st ss) + length w)%nat true (depth (ss_st ss))) = Err c i -> ~ eofish c ->
+  let E := mkEnv rk TEof cf in
+  let ssx := mkSS (mkSt (rest (ss_st ss) ++ t) (off (ss_st ss)) (pk (ss_st ss)) (depth (ss_st ss)))
+                  (ss_off ss) (ss_failed ss) in
+  (exists ss', stream_next E value_item ss = (Some (IErr c i), ss')
+      /\ ss_off ss' = (off (ss_st ss) + length w)%nat
+      /\ forall n, Forall (fun o => fst o = None /\ snd o = (off (ss_st ss) + length w)%nat) (stream_run n E value_item ss'))
+  /\ (exists ss', stream_next E value_item ssx = (Some (IErr c i), ss')
+      /\ ss_off ss' = (off (ss_st ss) + length w)%nat
+      /\ forall n, Forall (fun o => fst o = None /\ snd o = (off (ss_st ss) + length w)%nat) (stream_run n E value_item ss')).
+Proof. exact (@StreamEof.stream_value_syntax_stable). Qed.
+Print Assumptions C11_stream_stable.
+
+
+(* ---- typed targets ---- *)
+From SJ Require Import Model.Ty Model.DeTyped.
+From SJ Require Proofs.TypedPrefix.
+Theorem C11_typed_dead : forall rk cf t p tl c i,
+  from_input_typed (mkEnv rk TEof cf) t p = TErr c i -> ~ eofish c ->
+  (forall m, c <> Message m) -> c <> TrailingCharacters ->
+  from_input_typed (mkEnv rk TEof cf) t (p ++ tl) = TErr c i.
+Proof. exact (@TypedPrefix.C11_typed_dead). Qed.
+Print Assumptions C11_typed_dead.
+
